@@ -1382,6 +1382,13 @@ def _b_dir(i, a, k, t):
         return sorted(names)
     if isinstance(obj, str):
         return dir(obj)
+    if isinstance(obj, Opaque):
+        if obj.cls is not None and obj.cls in i.idx.classes:
+            names = set()
+            for c in i.idx.mro(obj.cls):
+                names |= set(i.idx.classes[c].methods) | set(i.idx.classes[c].class_attrs)
+            return sorted(names)
+        return Opaque(f"dir({obj.text})")  # membership tests on it fork
     raise Unsupported(f"dir({obj!r})")
 
 
